@@ -26,12 +26,12 @@ func vgNote(format string, a ...interface{}) {
 	}
 }
 
-func poisonE(e *SM2Element)   { utils.VgPoisonPtr(unsafe.Pointer(&e.x), 32) }
-func unpoisonE(e *SM2Element) { utils.VgUnpoisonPtr(unsafe.Pointer(&e.x), 32) }
-func poisonS(e *SM2ScalarElement) {
+func zvPoisonE(e *SM2Element)   { utils.VgPoisonPtr(unsafe.Pointer(&e.x), 32) }
+func zvUnpoisonE(e *SM2Element) { utils.VgUnpoisonPtr(unsafe.Pointer(&e.x), 32) }
+func zvPoisonS(e *SM2ScalarElement) {
 	utils.VgPoisonPtr(unsafe.Pointer(&e.x), 32)
 }
-func unpoisonS(e *SM2ScalarElement) { utils.VgUnpoisonPtr(unsafe.Pointer(&e.x), 32) }
+func zvUnpoisonS(e *SM2ScalarElement) { utils.VgUnpoisonPtr(unsafe.Pointer(&e.x), 32) }
 
 func vgBytes(seed int, n int) []byte {
 	b := make([]byte, n)
@@ -56,7 +56,7 @@ func vgS_Field_SetBytes(v []byte) *SM2Element {
 	e, _ := new(SM2Element).SetBytes(v)
 	utils.VgUnpoison(v)
 	if e != nil {
-		unpoisonE(e)
+		zvUnpoisonE(e)
 	}
 	return e
 }
@@ -67,15 +67,15 @@ func vgS_Scalar_SetBytes(v []byte) *SM2ScalarElement {
 	e, _ := new(SM2ScalarElement).SetBytes(v)
 	utils.VgUnpoison(v)
 	if e != nil {
-		unpoisonS(e)
+		zvUnpoisonS(e)
 	}
 	return e
 }
 
 //go:noinline
 func vgS_Field_Arith(a, b *SM2Element) {
-	poisonE(a)
-	poisonE(b)
+	zvPoisonE(a)
+	zvPoisonE(b)
 	r := new(SM2Element)
 	r.Add(a, b)
 	r.Sub(r, b)
@@ -86,9 +86,9 @@ func vgS_Field_Arith(a, b *SM2Element) {
 	r.Select(a, r, 0)
 	out := r.Bytes()
 	utils.VgUnpoison(out)
-	unpoisonE(r)
-	unpoisonE(a)
-	unpoisonE(b)
+	zvUnpoisonE(r)
+	zvUnpoisonE(a)
+	zvUnpoisonE(b)
 	vgSink += uint64(out[0])
 }
 
@@ -97,35 +97,35 @@ func vgS_Field_Select_tainted_cond(a, b *SM2Element, cond int) {
 	cb := []byte{byte(cond)}
 	utils.VgPoison(cb)
 	r := new(SM2Element).Select(a, b, int(cb[0]))
-	unpoisonE(r)
+	zvUnpoisonE(r)
 	utils.VgUnpoison(cb)
 	vgSink += r.x[0]
 }
 
 //go:noinline
 func vgS_Field_Invert(a *SM2Element) {
-	poisonE(a)
+	zvPoisonE(a)
 	r := new(SM2Element).Invert(a)
-	unpoisonE(r)
-	unpoisonE(a)
+	zvUnpoisonE(r)
+	zvUnpoisonE(a)
 	vgSink += r.x[0]
 }
 
 //go:noinline
 func vgS_Field_IsZero_Equal(a, b *SM2Element) {
-	poisonE(a)
+	zvPoisonE(a)
 	z := a.IsZero()
 	q := a.Equal(b)
 	utils.VgUnpoisonPtr(unsafe.Pointer(&z), unsafe.Sizeof(z))
 	utils.VgUnpoisonPtr(unsafe.Pointer(&q), unsafe.Sizeof(q))
-	unpoisonE(a)
+	zvUnpoisonE(a)
 	vgSink += uint64(z + q)
 }
 
 //go:noinline
 func vgS_Scalar_Arith(a, b *SM2ScalarElement) {
-	poisonS(a)
-	poisonS(b)
+	zvPoisonS(a)
+	zvPoisonS(b)
 	r := new(SM2ScalarElement)
 	r.Add(a, b)
 	r.Sub(r, b)
@@ -134,18 +134,18 @@ func vgS_Scalar_Arith(a, b *SM2ScalarElement) {
 	r.Select(a, r, 1)
 	out := r.Bytes()
 	utils.VgUnpoison(out)
-	unpoisonS(r)
-	unpoisonS(a)
-	unpoisonS(b)
+	zvUnpoisonS(r)
+	zvUnpoisonS(a)
+	zvUnpoisonS(b)
 	vgSink += uint64(out[0])
 }
 
 //go:noinline
 func vgS_Scalar_Invert(a *SM2ScalarElement) {
-	poisonS(a)
+	zvPoisonS(a)
 	r := new(SM2ScalarElement).Invert(a)
-	unpoisonS(r)
-	unpoisonS(a)
+	zvUnpoisonS(r)
+	zvUnpoisonS(a)
 	vgSink += r.x[0]
 }
 
@@ -157,7 +157,7 @@ func vgS_MultiSelect(tbl *[]*[4]uint64, width int, bits byte, fb *SM2Element) {
 	cond := 1 - subtle.ConstantTimeByteEq(bb[0], 0)
 	out := new(SM2Element)
 	out.MultiSelect(tbl, width, bb[0], fb, cond)
-	unpoisonE(out)
+	zvUnpoisonE(out)
 	utils.VgUnpoison(bb)
 	vgSink += out.x[0]
 }
